@@ -535,7 +535,7 @@ pub fn replay(vj: &serde_json::Value) -> Option<Viol> {
     let idir = crate::props::crash::ImageDir::new("c13r");
     let (o, _) = image::open_and_read(&idir, &img, &cfg);
     let image::Opened::Ok { state, entries: Ok(entries) } = o else { return None };
-    let ci = CleanImage { img, cfg, state, entries, ops: vec![] };
+    let ci = CleanImage { img, cfg, state, entries, ops: vec![], leftover: vec![] };
     let seed: u64 = vj["seed"].as_str()?.parse().ok()?;
     let mut stats = C13Stats::default();
     for _ in 0..5 {
